@@ -29,6 +29,7 @@ macro_rules! dispatch {
             "C13" => $f::<props::c13::C13>($($arg),*),
             "C14" => $f::<props::c14::C14>($($arg),*),
             "C15" => $f::<props::c15::C15>($($arg),*),
+            "C16" => $f::<props::c16::C16>($($arg),*),
             "C17" => $f::<props::c17::C17>($($arg),*),
             "C18" => $f::<props::c18::C18>($($arg),*),
             "C19" => $f::<props::c19::C19>($($arg),*),
